@@ -117,7 +117,7 @@ def run(ctx):
     # size_t beneath every storage order (with and without -mbmi2), and stacks whose view state is exactly 256 bytes
     edges_src = os.path.join(core.HARNESS, "c13_edges.cpp")
     es = []
-    for k, key in enumerate(["narrow-array-index:strided", "narrow-array-index:morton-bmi2", "narrow-array-index:morton-portable", "narrow-array-index:hilbert", "view-limit"]):
+    for k, key in enumerate(["narrow-array-index:strided", "narrow-array-index:morton-bmi2", "narrow-array-index:morton-portable", "narrow-array-index:hilbert", "view-limit", "integer-array"]):
         es.append(dict(name="edges/%s/asan-dbg" % key, src=edges_src, flavour="asan-dbg", defines=["PART=%d" % k]))
         if k in (1, 2):
             es.append(dict(name="edges/%s/asan-dbg+bmi2" % key, src=edges_src, flavour="asan-dbg+bmi2", defines=["PART=%d" % k], primary=False))
@@ -160,7 +160,8 @@ def run(ctx):
               "that does not compile is re-compiled one member at a time (-fsyntax-only) and reported as compile:<member>:<header>.  Assignments (copy, move, std::swap) "
               "are also made OVER a field of the same type holding other configuration values in every layer (zoo: make_other).  Edges of the kind rules, hand-written "
               "(harness/c13_edges.cpp): array index types narrower than size_t (uint8/16/32) beneath strided / morton<true> / morton<false> / hilbert, 1-4 "
-              "dimensions, with and without -mbmi2; four stacks whose view state is exactly 256 bytes (the library's limit) or 240: whole API with value checks.  Ill-kinded "
+              "dimensions, with and without -mbmi2; four stacks whose view state is exactly 256 bytes (the library's limit) or 240; integer-valued array storage (int / unsigned / long cells) beneath strided, morton and hilbert: whole API with value checks "
+              "(an integer payload that cannot be dumped may be refused with an exception at run time, not at compile time).  Ill-kinded "
               "half: a catalogue of %d compositions that violate a stated kind must be rejected by the compiler, each with a well-kinded twin that "
               "must compile.  non-trivial: stack of depth >= 2; distinct = hash of the stack description") % len(CATALOGUE),
         assumptions=["the ill-kinded half has no execution to monitor: it is observed through the compiler's exit status and diagnostic text only (weakest evidence in this framework)",
